@@ -161,12 +161,15 @@ CLAIMED = {
    text="C16_socket_eof_ends_init: on the RPC LTS of C10, from EVERY reachable state (idle or any point of any operation, any interleaving), once "
         "the container has noticed that the socket is gone its own steps bring the init to its exit within 4 steps (verified ranking check): the "
         "init never waits on anything that is not guarded by done; C16_resumed_implies_options_set: in the tracer model a stop is answered with "
-        "PTRACE_CONT only for a task on which PTRACE_SETOPTIONS (with PTRACE_O_EXITKILL) succeeded first.  The conclusion 'every sandboxed "
+        "PTRACE_CONT only for a task on which PTRACE_SETOPTIONS (with PTRACE_O_EXITKILL) succeeded first; C16_traced_launch_dies_with_tracer: in the "
+        "launch model (child || tracer || the kernel's rules for a tracee whose tracer dies) with the tracer killed at ANY moment, the program's code "
+        "never runs with the tracer dead, nothing is left behind stopped, and a child that has not yet asked for the parent-death signal notices that "
+        "its launcher is gone; C16_without_pdeathsig_refuted exhibits both failures for the pinned sequence (repaired in /repo).  The conclusion 'every sandboxed "
         "process dies' then rests on the kernel rules named below.  Tie on every run: a helper controller brings a sandbox to 8 crash points "
         "(idle, program running with sync before / after exec, inside the sync callback, after a call that left descendants, during file "
         "operations, while the init runs its InitCommand — where only the parent-death signal helps —, a traced process tree) and is SIGKILLed "
         "there with 0..200 ms delay; the programs are trees of 7 tasks ignoring every signal; within 3 s neither the init nor any process "
-        "carrying the run's token may exist.  The controller is also killed while its tracer stands at each step of the launch and of the run (debug steps), and idle after a traced run whose descendants left the process group.",
+        "carrying the run's token may exist.  The controller is also killed while its tracer stands at each step of the launch and of the run (debug steps; what is left is compared in Coq with the launch model's prediction), and idle after a traced run whose descendants left the process group.",
    note="Partial: the parent-death signal (PR4), 'death of a pid-namespace init kills the namespace' (PR3), PTRACE_O_EXITKILL (PT4), option "
         "inheritance by auto-attached children (PT2) and EOF on the socket (SK4) are kernel rules, exercised by the crash-point runs, not proved.  "
         "States in which the init is blocked outside a select (InitCommand, waiting for a killed child) are covered by the runs only.",
